@@ -4,6 +4,7 @@
 package main
 
 import (
+	"bytes"
 	"fmt"
 	"runtime"
 	"sort"
@@ -290,6 +291,11 @@ func (c *checker) runPair(msg []byte, def lazyproto.Def, decs [2]*lazyproto.Deco
 		c.calls++
 		c.afterDecode(r, err, def, wellFormed, fields)
 		c.guard("Close", func() { _ = r.Close() })
+		// decoding and reading only READ the input: whatever the mode, the caller's buffer holds what it held
+		if !bytes.Equal(in, msg) {
+			c.fail("Decode/input-buffer-modified", "decode", fmt.Sprintf("buffer afterwards %x", in))
+			in = append([]byte{}, msg...)
+		}
 		if mi == 0 {
 			// deprecated function entry point (always safe)
 			c.entry = "Decode()"
